@@ -156,7 +156,14 @@ def gen_graph(ints, for_prebuild=False):
             c = Callable(kind, name, [], 'int', cls)
         else:
             ret = t.choice(['int', 'int', 'str', 'bool', None])
-            params = [('p%d' % k, t.choice(['int', 'int', 'str', 'bool'])) for k in range(t.pick(3))]
+            params = []
+            for k in range(t.pick(3)):
+                pt = t.choice(['int', 'int', 'str', 'bool'])
+                # sometimes named like the local variables of the generated bodies (i1, s1, b1): parameters and
+                # locals live in different namespaces
+                pn = {'int': 'i%d', 'str': 's%d', 'bool': 'b%d'}[pt] % (k + 1) if t.pick(3) == 0 else 'p%d' % k
+                if pn not in [x[0] for x in params]:
+                    params.append((pn, pt))
             c = Callable(kind, name, params, ret, cls)
         hooks = CallHooks(list(order))
         g = Gen(t, max_stmts=5, max_depth=2, calls=hooks if order else None, params=dict(c.params),
@@ -176,6 +183,20 @@ def gen_graph(ints, for_prebuild=False):
             stmts.append(N('IfNode', expression=N('BinaryOperationNode', left=P('k'), operator='<=', right=N('IntegerNode', value='0')),
                            block=block([N('ReturnNode', expression=N('IntegerNode', value=t.choice(['0', '1', '5'])))]),
                            elif_list=N('ElIfListNode', children=[]), else_clause=None))
+        shadowed = [(pn, pt) for pn, pt in c.params if not pn.startswith('p') and pn != 'k']
+        if shadowed and t.pick(4) != 0:
+            # the usual "copy the parameter into a local of the same name" idiom; the parameter keeps its value
+            PA = lambda nme: N('ParamAccessNode', variable_name=nme, _kw='param')
+            for pn, pt in shadowed:
+                rhs = {'int': lambda: N('BinaryOperationNode', left=PA(pn), operator=t.choice(['+', '*', '-']),
+                                        right=N('IntegerNode', value=t.choice(['2', '3', '7']))),
+                       'str': lambda: N('BinaryOperationNode', left=PA(pn), operator='+', right=N('StringNode', value='"~"')),
+                       'bool': lambda: N('UnaryOperationNode', operator='not', operand=PA(pn))}[pt]()
+                env.set(pn, {'ty': pt})
+                stmts.append(N('AssignmentNode', variable_access=g.var(pn), expression=rhs))
+            features.add('param-shadowed')
+        else:
+            shadowed = []
         stmts += g.stmts(env, 2, False, top=True, minimum=1)
         if kind == 'derived':
             stmts.append(N('AssignmentNode', variable_access=N('FieldAccessNode', handle=N('SelfAccessNode'), name=name),
@@ -196,9 +217,15 @@ def gen_graph(ints, for_prebuild=False):
                 # the result depends on every integer variable still in scope: a callee that disturbed them shows
                 for v in env.vars(lambda i: i['ty'] == 'int')[:4]:
                     e = N('BinaryOperationNode', left=e, operator='+', right=g.var(v))
+                for pn, pt in shadowed:
+                    if pt == 'int':
+                        e = N('BinaryOperationNode', left=e, operator='+', right=N('ParamAccessNode', variable_name=pn, _kw='param'))
             elif c.ret == 'str':
                 for v in env.vars(lambda i: i['ty'] == 'str')[:3]:
                     e = N('BinaryOperationNode', left=e, operator='+', right=g.var(v))
+                for pn, pt in shadowed:
+                    if pt == 'str':
+                        e = N('BinaryOperationNode', left=e, operator='+', right=N('ParamAccessNode', variable_name=pn, _kw='param'))
             stmts.append(N('ReturnNode', expression=e))
         else:
             k = t.pick(3)
@@ -454,7 +481,7 @@ def run_case(case, res=None):
                 fail('derived-not-recomputed', 'after self.n += 5: read %r, reference %r\n%s' % (got2, want2, c.text))
     if res is not None:
         nt = (model.max_depth >= 2) or 'recursion' in features or 'bare-return' in features
-        cl = sorted('f:' + f for f in features if f in ('recursion', 'bare-return', 'call-in-expression', 'call-statement',
+        cl = sorted('f:' + f for f in features if f in ('recursion', 'bare-return', 'param-shadowed', 'call-in-expression', 'call-statement',
                                                         'return-in-loop', 'where', 'foreach', 'while'))
         cl.append('depth-%d' % min(model.max_depth, 4))
         res.case(case['tape'], nt and compared > 0,
